@@ -43,6 +43,8 @@ pub struct LoopSpec {
     /// with wrap=: bind the wrapped vector to this name first (`let NAME = WRAP(&(EXPR)); let ghost NAME_g = NAME@;`)
     /// so that invariants and later proof text can name the sequence iterated over
     pub bind: Option<String>,
+    /// with bind=: `vlen=1` adds `proof { assert(NAME_g.len() == NAME.len()); }` after the binding
+    pub vlen: bool,
     pub invariants: Vec<Clause>,
     pub invariants_except_break: Vec<Clause>,
     pub ensures: Vec<Clause>,
@@ -225,7 +227,8 @@ pub fn parse_unit(text: &str) -> Unit {
                 let wrap = words.iter().find_map(|w| w.strip_prefix("wrap=").map(|x| x.to_string()));
                 let bind = words.iter().find_map(|w| w.strip_prefix("bind=").map(|x| x.to_string()));
                 let iter_name = words.get(1).filter(|w| !w.contains('=')).cloned();
-                cur_item!().loops.push(LoopSpec { key: words[0].clone(), iter_name, wrap, bind, ..Default::default() });
+                let vlen = words.iter().any(|w| w == "vlen=1");
+                cur_item!().loops.push(LoopSpec { key: words[0].clone(), iter_name, wrap, bind, vlen, ..Default::default() });
             }
             "@closure_sig" => {
                 if !matches!(ctx, Ctx::Loop) {
